@@ -4,6 +4,26 @@ import json
 ALL = ["C%02d" % i for i in range(1, 21)]
 # id -> (category, level text, level note, technique, design ref)
 CHECKS = {
+ "C08": ("exploration",
+   "generated workspaces, optionally with prior applied state, pushed with every backup mode/count/goal/thread combination; .pc/** is compared file by file with the model state just before each patch of the N-window, nothing else may exist under .pc, and a simulated pop (restore newest-first) must recreate the model tree before the window",
+   "trusts the tree model; absent and zero-length files are identified after the simulated pop (quilt's format cannot tell them apart)",
+   "property-based testing: workspace generator with model T_0..T_n; oracle = expected backup set by construction + simulated quilt pop"),
+ "C09": ("exploration",
+   "generated histories: a push to goal g cut into 1-5 invocations (push / push N / push <name> / -a, own options each) versus one invocation on a fresh copy; trees, rejects and applied-patches must be identical; an extra push with nothing to do must leave the full snapshot (inodes, mtimes) untouched, a repeat of a failed push must fail identically",
+   "backup directories are not compared across differently split runs",
+   "property-based testing: stateful histories of invocations with a metamorphic (split vs single) oracle"),
+ "C10": ("exploration",
+   "generated workspaces incl. failing series run with --dry-run under all option combinations; full recursive snapshot (bytes, modes, inodes, link counts, pinned mtimes of files and directories) must be unchanged and exit status / failing patch must equal a real run on a copy",
+   "observation by snapshot rather than syscall tracing",
+   "property-based testing: snapshot invariant + differential against the real run"),
+ "C14": ("exploration",
+   "generated workspaces (zero-length source and patch files, failing series, prior applied state, goals incl. already-applied names) run with -q/default loader and with sampled presentation/loader option sets; tree, .pc/**, rejects and exit status must be identical",
+   "only a sample of option combinations per workspace (3 quick / 6 thorough of 11 sets)",
+   "property-based testing: differential oracle across option variants of the same run"),
+ "C15": ("exploration",
+   "generated workspaces hard-linked into a twin tree; after the push the twin must keep bytes and modes, changed files must be fresh inodes, files not named in the pushed range must keep inode, link count 2 and pinned mtime",
+   "inode identity judged against the twin, observation by snapshot",
+   "property-based testing: hard-link twin invariant over generated workspaces"),
  "C02": ("exploration",
    "bounded-exhaustive sweep (every single hunk with <=2 context lines each side and <=1 removed/added line over a two-letter alphabet, against every file up to length 5/6, every stated line, every fuzz limit <=2) plus seeded random multi-hunk cases; each reported placement is checked against a brute-force reference of the patch(1) rules (old side really there, anchoring, nearest match with forward ties, lowest admissible fuzz level, no-match only when no level admits a position)",
    "trusts the reference model's reading of the rules; where the statement admits two readings both are accepted and counted (lenient_skips)",
